@@ -8,10 +8,10 @@ CFG = {
     "exhaustive": {"quick": False, "thorough": True},
     "rule": "all 8-bit patterns; 16-bit patterns (stride 13 quick / all 65536 thorough) x {u16,i16} x {be,le}; every "
             "remaining-length 0..w+1 for every width/endian/signedness; boundary 32/64-bit patterns; random buffers "
-            "<= 11 bytes x random cursor x random parser; non-trivial = multi-byte parser with >=2 bytes of buffer or a non-zero cursor",
+            "<= 11 bytes x random cursor x random parser, each also through a RestrictView window of a larger allocation; non-trivial = multi-byte parser with >=2 bytes of buffer or a non-zero cursor",
     "trusted_base": COMMON_TB + [
         "modelled, not verified: ParseBuffer::peek/incr_cursor_unsafe/set_cursor_unsafe/extract as list indexing on a whole buffer (views: C17)"],
-    "assumptions": ["the buffer is an unrestricted ParseBuffer (restricted views are covered by C17)"],
+    "assumptions": ["the model is over a plain byte list; that a restricted view behaves like a copy of its window is C17's theorem; the correspondence run exercises every parser both on plain buffers and on restricted views inside a larger allocation (case kinds prefixed with v)"],
 }
 LEVEL = {
     "design_ref": "DESIGN.md 3.C19",
